@@ -256,6 +256,7 @@ PROPS = {
         level_note="trusted: TLC and the TLA+ StrictShp operator (checked against the reference encoder by MC_Codec)",
         technique="TLA+ strict decoder evaluated by TLC on real output bytes (trace validation) + TLC model check of decoder/encoder",
         mc=[CODEC_MC, WRITER_MC],
+        proofs=["WriterNumbers"],
         stages=[dict(cmd="codec", spec="Trace_Codec", gen="Gen_Shapes",
                      quick=dict(chunks=6, cases=10, large=1),
                      thorough=dict(chunks=16, cases=60, large=6, sweep=1)),
@@ -391,7 +392,8 @@ LEVEL_TEXT_ADDENDA = {
     "C01": "; iteration on readers used before (after a refused random access, after a walk past the end); RAW BITS: shapes over arbitrary 64-bit patterns (-0.0, subnormals, NaN payloads, neighbours of NO_DATA) are compared byte by "
            "byte under the rules of spec/F64Bits.tla, whose operators are themselves validated against the processor on recorded "
            "comparisons and model-checked (MC_F64); read-back also through the Iterator adaptors nth/count/last; a size-threshold sweep (serialised sizes on and next to powers of two); files on disk under lower-case, upper-case and dotted names",
-    "C02": "; destinations that accept 1..7 bytes per call; destinations handed over with their cursor away from 0; record numbers and lengths after writes that failed cleanly",
+    "C02": "; UNBOUNDED: TLAPS proves (spec/proofs/WriterNumbers, 49 obligations) that records are numbered 1, 2, 3, ... whatever refused "
+           "or cleanly failed writes lie between them; destinations that accept 1..7 bytes per call; destinations handed over with their cursor away from 0; record numbers and lengths after writes that failed cleanly",
     "C03": "; records of more than 2^20 points and of more than 2^20 parts (fields, counts and sampled vertices validated); every generated file is also read by path and through read_shapes; stored boxes that are all-zero or partly zero",
     "C05": "; per-shape and header boxes of the raw-bit cases by the numeric order of F64Bits; fault runs: a write that failed before emitting a byte must not count for the header box; UNBOUNDED: TLAPS proves "
            "(spec/proofs/WriterBox, 135 obligations) that for any number of shapes the incrementally grown range is exactly the "
